@@ -182,7 +182,11 @@ func (e *Engine) runWorkers(n int) {
 				if s == nil {
 					return
 				}
-				w.runPath(s)
+				if atomic.LoadInt64(&s.job.stopped) == 0 {
+					w.runPath(s)
+				} else {
+					atomic.AddInt64(&s.job.Pruned, 1) // the job already ended with a livelock verdict
+				}
 				j := s.job
 				if atomic.AddInt64(&j.pending, -1) == 0 {
 					j.wall = time.Since(j.t0)
